@@ -183,6 +183,27 @@ class Analysis:
                 return d.value
         return None
 
+    def preceding_def(self, stmt: ast.stmt, name: str) -> Optional[ast.expr]:
+        """Value of the closest assignment `name = value` that precedes stmt in
+        its own block or an enclosing block (straight-line reaching definition)."""
+        cur = stmt
+        while cur is not None and not isinstance(cur, (ast.FunctionDef, ast.AsyncFunctionDef)):
+            par = getattr(cur, "_parent", None)
+            if par is None:
+                break
+            for field in ("body", "orelse", "finalbody"):
+                blk = getattr(par, field, None)
+                if isinstance(blk, list) and cur in blk:
+                    for prev in reversed(blk[: blk.index(cur)]):
+                        if isinstance(prev, ast.Assign) and len(prev.targets) == 1 and isinstance(prev.targets[0], ast.Name) and prev.targets[0].id == name:
+                            return prev.value
+                        if isinstance(prev, ast.AnnAssign) and isinstance(prev.target, ast.Name) and prev.target.id == name and prev.value is not None:
+                            return prev.value
+                        if any(isinstance(x, ast.Name) and x.id == name and isinstance(x.ctx, ast.Store) for x in ast.walk(prev)):
+                            return None  # assigned in a nested construct: not straight-line
+            cur = par
+        return None
+
     def expand(self, e: ast.expr, fi: Optional[FunctionInfo], depth=6, stop: Iterable[str] = ()) -> ast.expr:
         """Copy of e with single-assignment locals inlined (recursively).
         Names in `stop` are kept."""
@@ -390,8 +411,30 @@ def _consistent(c: Conj) -> bool:
 
 
 def _simplify(d: List[Conj]) -> List[Conj]:
+    cur = set(d)
+    # merge {X, a} | {X, !a} -> {X} until a fixed point (removes conditions of
+    # earlier, independent branches that a path merely passed through)
+    changed = True
+    while changed and len(cur) < 400:
+        changed = False
+        lst = sorted(cur, key=lambda c: (len(c), sorted(c)))
+        for i, a in enumerate(lst):
+            for b in lst[i + 1:]:
+                if len(a) != len(b):
+                    continue
+                diff = a ^ b
+                if len(diff) == 2:
+                    (x, px), (y, py) = tuple(diff)
+                    if x == y and px != py:
+                        cur.discard(a)
+                        cur.discard(b)
+                        cur.add(a & b)
+                        changed = True
+                        break
+            if changed:
+                break
     out: List[Conj] = []
-    for c in sorted(set(d), key=len):
+    for c in sorted(cur, key=lambda c: (len(c), sorted(c))):
         if any(o <= c for o in out):
             continue
         out.append(c)
